@@ -13,12 +13,17 @@
     the index only as plaintexts of the randomized cipher, for every key, database and tape; hence two set-ups whose
     draws do not overlap share no array cell and no dictionary value, even for the same key and database
     (`PiPtr.reencryption_shares_nothing`).
+  * CT14 and ANSS16: every VALUE of every level table (and of ANSS16's size table) is either a concatenation of
+    ciphertexts that starts with a 16-byte draw of this run or is itself a random draw — a padding entry
+    (`CT14.values_from_randomness`, `ANSS16.values_from_randomness`): identifiers and list lengths enter the index only
+    as plaintexts of the randomized cipher.
   That no keyword or identifier then occurs as a substring is a probability statement about pseudo-random bytes; the
   direct oracle scans the real serialized index and tokens.
 -/
 import SSEPyVerif.Proofs.Schemes.Chain
 import SSEPyVerif.Proofs.Schemes.Prims
 import SSEPyVerif.Proofs.Schemes.Stamped
+import SSEPyVerif.Proofs.Schemes.StampedLevels
 namespace SSEPy.C04
 open SSEPy.Sch SSEPy.Sch.Chain
 
@@ -128,5 +133,19 @@ theorem Pi2Lev.reencryption_shares_nothing (cfg : Pi2LevCfg) (lv : Leaves) (K K'
   obtain ⟨a1, d1⟩ := Pi2Lev.index_is_ciphertexts cfg lv K db t t' e h
   obtain ⟨a2, d2⟩ := Pi2Lev.index_is_ciphertexts cfg lv K' db' u u' e' h'
   exact ⟨fun c hc hc' => hdis _ (a1 c hc) (a2 c hc'), fun p hp q hq he => hdis _ (d1 p hp) (by rw [he]; exact d2 q hq)⟩
+
+/-- CT14 (schemes/CT14/Pi): every value stored in a level table of the index is either the concatenation of a chunk's
+    ciphertexts — which starts with the 16 random bytes drawn for the first of them — or a padding entry that is itself a
+    random draw.  For every key, database and tape; the only assumption is that the block cipher maps 16 bytes to 16. -/
+theorem CT14.values_from_randomness (cfg : CT14Cfg) (lv : Leaves) (hl : LeafLaws lv) (K : Bytes) (db : DB) (t t' : Tape)
+    (HT : List Table) (h : CT14.setup cfg lv K db t = .ok (HT, t')) : ∀ T ∈ HT, ∀ p ∈ T, FromTape t p.2 :=
+  CT14.setup_from cfg lv hl.enc_len K db t t' HT h
+
+/-- ANSS16 Scheme 3: the same for the size table `HT(S)` (encrypted list lengths, random padding) and for every level table
+    (padded lists encrypted identifier by identifier, random padding) -/
+theorem ANSS16.values_from_randomness (cfg : ANSSCfg) (lv : Leaves) (hl : LeafLaws lv) (K : Bytes) (db : DB) (t t' : Tape)
+    (edb : ANSSEDB) (h : ANSS16.setup cfg lv K db t = .ok (edb, t')) :
+    (∀ p ∈ edb.HTS, FromTape t p.2) ∧ ∀ T ∈ edb.HTL, ∀ p ∈ T, FromTape t p.2 :=
+  ANSS16.setup_from cfg lv hl.enc_len K db t t' edb h
 
 end SSEPy.C04
